@@ -221,3 +221,17 @@ Definition attempts (tr : list event) : nat := length (calls tr).
 
 Fixpoint seq_from (k n : nat) : list nat :=
   match n with O => [] | S n' => k :: seq_from (S k) n' end.
+
+(** ** select races lost to the timer.  When [ctx.Done()] is already ready at the instant the
+    select is entered, the timer case can only be taken if it is ready too (wait <= 0: a zero
+    back-off, Stop) — Go then chooses uniformly at random, so every such iteration is a coin
+    flip between giving up and one more retry.  [lost_races] counts the iterations of a run in
+    which the coin fell on the timer.  The model admits any number of them; the probability of
+    K in a row is 2^-K (Props: C12_zero_wait_race_count), and the "fair select" contract
+    [lost_races <= K] is what the timely-give-up clause needs for zero waits. *)
+Definition ctx_ready_at (td : option Z) (t : Z) : bool :=
+  match td with Some d => d <=? t | None => false end.
+Definition lost_race (td : option Z) (it : witem) : bool :=
+  negb (w_ctx it) && ctx_ready_at td (w_tnb it).
+Definition lost_races (td : option Z) (ws : list witem) : nat :=
+  length (filter (lost_race td) ws).
